@@ -92,7 +92,7 @@ def parse_template(path):
                     if cur_text: chunks.append(("text", cur_text, cur_text_line)); cur_text = []
                     chunks.append(("include", rest))
                     cur_text_line = ln + 1
-                elif word in ("unit", "default-props", "note"):
+                elif word in ("unit", "default-props", "note", "world-calls"):
                     chunks.append(("meta", word, rest))
                 else:
                     raise ValueError("%s:%d unknown directive %s" % (path, ln, word))
@@ -248,7 +248,7 @@ def payload_segments(lines, kind, indent="    "):
     return segs
 
 
-def build_item(spec, vacuity=False):
+def build_item(spec, vacuity=False, unit_calls=None):
     """returns (segments, report) for one extracted item"""
     src, kind, it, extra = locate(spec.locator)
     text = src.text
@@ -352,17 +352,22 @@ def build_item(spec, vacuity=False):
         if vacuity and spec.vac:
             p = toks[body_open][2]
             add(p, p, [Seg(" proof { assert(false); } // VACUITY-PROBE\n", "vacuity")])
-        # addarg
+        # addarg (item-level first, then the unit-level `world-calls` for every call site not yet handled)
         m = src.matching()
-        for (cnt, rx, argtext) in spec.addargs:
+        done_calls = set()
+        all_addargs = list(spec.addargs)
+        for (rx, argtext) in (unit_calls or []):
+            all_addargs.append((None, rx, argtext))
+        for (cnt, rx, argtext) in all_addargs:
             cre = re.compile(rx)
             hits = 0
             k = src.next_sig(body_open)
             while k is not None and k < body_close:
-                if src.is_punct(k, "("):
+                if src.is_punct(k, "(") and k not in done_calls:
                     pre = text[max(b_lo, toks[k][1] - 120):toks[k][1]]
                     mm = re.search(r"[A-Za-z_][A-Za-z0-9_:.]*$", pre)
                     if mm and cre.fullmatch(mm.group(0)):
+                        done_calls.add(k)
                         close = m[k]
                         prev = src.prev_sig(close)
                         lead = "" if (prev == k or src.is_punct(prev, ",")) else ", "
@@ -452,8 +457,11 @@ def assemble(unit, vacuity=False, outdir=None):
                     do_chunks(parse_template(ip), ch[1])
             elif ch[0] == "meta":
                 if ch[1] == "default-props": meta["default-props"] = ch[2].split()
+                if ch[1] == "world-calls":
+                    rx, text = split_regex_directive(ch[2])
+                    meta.setdefault("world-calls", []).append((rx, text))
             elif ch[0] == "item":
-                s, rep = build_item(ch[1], vacuity=vacuity)
+                s, rep = build_item(ch[1], vacuity=vacuity, unit_calls=meta.get("world-calls"))
                 rep["template_line"] = ch[1].lineno
                 rep["has_spec"] = ch[1].spec is not None
                 rep["vac"] = ch[1].vac and rep["kind"] in ("fn", "closure", "block")
